@@ -424,6 +424,9 @@ def client_checks(ctx):
             items = list(zip(names, full))
             rng.shuffle(items)
             d = dict(items)
+            if rng.random() < 0.3:
+                import collections
+                d = rng.choice([collections.OrderedDict(items), collections.defaultdict(lambda: None, items)])
             try:
                 env3 = wsdlkit.envelope_bytes(c_raw.service.f(d))
                 if not same_request(env3, real[1]):
